@@ -239,8 +239,23 @@ func c02Lists(c *Ctx) {
 		c.Case(int64(i), func(k *K) {
 			r := k.Rand()
 			recs := genFastqList(r, 8)
+			var ar *arenaT
+			if k.Idx%2 == 1 && len(recs) <= 40 {
+				var parts [][]byte
+				for _, rec := range recs {
+					parts = append(parts, rec.Name, rec.Sequence, rec.Quals)
+				}
+				ar = newArena(r, parts...)
+				for j, rec := range recs {
+					rec.Name, rec.Sequence, rec.Quals = ar.parts[3*j], ar.parts[3*j+1], ar.parts[3*j+2]
+				}
+				k.Count("arena_cases", 1)
+			}
 			k.Input("records", func() string { return fastqListString(recs) })
 			text := fastqWrite(k, recs)
+			if ar != nil && arenaFail(k, ar, "Fastq.Write/MarshalText") {
+				return
+			}
 			fastqShape(k, recs, text)
 			fastqDecodeCompare(k, recs, text)
 			k.Count("records_roundtripped", int64(len(recs)))
